@@ -12,14 +12,16 @@ Theorem C37_count : forall t : node, N.of_nat (length (expand t)) = num_variants
 Proof. exact count_is_length. Qed.
 Print Assumptions C37_count.
 
-(* NumVariants is computed in Go ints: it is the mathematical count modulo 2^64 (as an int64), for every tree *)
-Theorem C37_count_go_int : forall t : node, num_variants64 t = wrap_i64 (Z.of_N (num_variants t)).
-Proof. exact count64_is_wrapped_count. Qed.
+(* NumVariants is computed in Go ints and saturates at math.MaxInt (/repo commit 1160e46): for EVERY tree the reported
+   count lies in [0, MaxInt] and is either MaxInt or exactly the mathematical count *)
+Theorem C37_count_go_int : forall t : node,
+  (0 <= num_variants64 t <= max_int)%Z /\ (num_variants64 t = max_int \/ num_variants64 t = Z.of_N (num_variants t)).
+Proof. exact count64_saturates. Qed.
 Print Assumptions C37_count_go_int.
 
-(* accepted patterns: the reported count is the number of expansions and is at most 1000 — when the count is below 2^63 *)
+(* accepted patterns, unguarded: the reported count is the number of expansions and is at most 1000 *)
 Theorem C37_accepted_within_limit : forall (p : bytes) (t : node),
-  parse_pattern p = Some t -> num_variants t < two63 ->
+  parse_pattern p = Some t ->
   num_variants64 t = Z.of_nat (length (expand t)) /\ (length (expand t) <= 1000)%nat.
 Proof. exact accepted_within_limit. Qed.
 Print Assumptions C37_accepted_within_limit.
@@ -29,12 +31,13 @@ Theorem C37_rendered_count : forall (t : node) (rs : list bytes), render_all t =
 Proof. exact render_all_length. Qed.
 Print Assumptions C37_rendered_count.
 
-(* without the guard the limit statement is false: `/` followed by 64 groups {a,b} is accepted, reports 0 variants and has
-   2^64 expansions (finding, KNOWN_FINDINGS key variant-count-wraps-int64; confirmed on the real code on every run) *)
-Theorem C37_count_overflow_refuted : exists t : node,
-  parse_pattern overflow_pattern = Some t /\ num_variants64 t = 0%Z /\ num_variants t = 18446744073709551616.
-Proof. exact overflow_witness. Qed.
-Print Assumptions C37_count_overflow_refuted.
+(* regression case of the repaired finding (KNOWN_FINDINGS `fixed:` 1160e46): `/` followed by 64 groups {a,b} has 2^64
+   expansions; its count saturates to MaxInt and the pattern is rejected (before the repair: reported 0, accepted) *)
+Example C37_count_overflow_rejected :
+  parse_pattern overflow_pattern = None /\
+  exists ts t, scan overflow_pattern = Some ts /\ parse_go ts [] [] = Some t /\
+               num_variants64 t = max_int /\ num_variants t = 18446744073709551616.
+Proof. exact overflow_pattern_rejected. Qed.
 
 (* invalid patterns are rejected: whatever is accepted starts with a slash, has no trailing backslash and no unescaped
    square bracket, has balanced braces, and its reported count is at most 1000 *)
